@@ -52,6 +52,10 @@ def gen_cases(rng, ctx):
     # every second hextet under 2001:
     for base in range(0, 65536, 2048):
         addr_case([[0x20, 0x01, h >> 8, h & 255] + [0] * 11 + [1] for h in range(base, base + 2048)], "v6-2001-second-hextet")
+    # every second hextet under 3fff: (the documentation block is the /20 at its start) and under its neighbours
+    for first in ([0x3f, 0xff], [0x3f, 0xfe], [0x3f, 0xf0], [0x5f, 0x00]):
+        for base in range(0, 65536, 2048):
+            addr_case([first + [h >> 8, h & 255] + [0] * 11 + [1] for h in range(base, base + 2048)], "v6-3fff-second-hextet")
     # embedded IPv4: boundaries of every special range and random ones
     model_ranges = ctx.get("ranges")
     bounds = []
